@@ -775,6 +775,59 @@ def _run_body(ck, env):
                 out.append(err_class(e))
         return out
 
+    # ------------------------------------------------------------------ guess fits: data of several shapes in the units of the world's isotherm
+    GUESS_SHAPES = ("strictly linear", "type I with origin", "exact Langmuir", "saturating, top-heavy grid")
+
+    def guess_data(o, shape):
+        """Pressure / loading lists of a given shape over the pressure range of the world's isotherm (its units: bar, Pa, relative ... as the world has them)."""
+        iso = o["iso"]
+        pmax, lmax = float(iso.pressure(branch="ads").max()), float(iso.loading(branch="ads").max())
+        if shape == "strictly linear":
+            x = np.linspace(0.05, 1.0, 10)
+            y = x
+        elif shape == "type I with origin":
+            x = np.array([0.0, 0.05, 0.25, 0.5, 1.0])
+            y = np.array([0.0, 1.0, 2.0, 2.5, 2.7]) / 2.7
+        elif shape == "exact Langmuir":
+            x = np.linspace(0.04, 1.0, 9)
+            y = 6.0 * x / (1.0 + 6.0 * x)
+        else:
+            x = np.array([0.01, 0.3, 0.5, 0.7, 0.8, 0.9, 0.95, 1.0])
+            y = 1.0 - np.exp(-9.0 * x)
+        return [float(v) for v in x * pmax], [float(v) for v in y * lmax]
+
+    def guess_outcome(m):
+        return (m.model.name, float(m.model.rmse), dict(m.model.params))
+
+    def guess_query(o, shape, entry):
+        """One `model='guess'` fit through one entry point; the data isotherm lives for this call only."""
+        iso = o["iso"]
+        if shape == "the isotherm itself":
+            t = iso
+        else:
+            pp, ll = guess_data(o, shape)
+            t = pg.PointIsotherm.from_isotherm(iso, pressure=pp, loading=ll)
+        if entry == "model_iso":
+            return guess_outcome(pgm.model_iso(t, model="guess"))
+        if entry == "from_pointisotherm":
+            return guess_outcome(pg.ModelIsotherm.from_pointisotherm(t, model="guess"))
+        meta = dict(material=str(t.material), adsorbate=str(t.adsorbate), temperature=float(t.temperature), **t.units)
+        pp, ll = [float(v) for v in t.pressure(branch="ads")], [float(v) for v in t.loading(branch="ads")]
+        if entry == "guess(lists)":
+            return guess_outcome(pg.ModelIsotherm.guess(pressure=pp, loading=ll, models="guess", **meta))
+        return guess_outcome(pg.ModelIsotherm.guess(isotherm_data=pd.DataFrame({"p": pp, "l": ll}), pressure_key="p", loading_key="l", models="guess", **meta))
+
+    GUESS_ENTRIES = ("model_iso", "from_pointisotherm", "guess(lists)", "guess(table)")
+    _ge = list(GUESS_ENTRIES)
+    rng.shuffle(_ge)
+    GUESS_QUERIES = [(f"guess fit [{sh}] via {_ge[i % 4]}", (lambda o, sh=sh, en=_ge[i % 4]: guess_query(o, sh, en)), 0.12)
+                     for i, sh in enumerate(GUESS_SHAPES + ("the isotherm itself",))]
+    _names0 = sorted(set(pgm._MODELS) | set(pgm._GUESS_MODELS) | set(pgm._IAST_MODELS))
+
+    def model_registry():
+        """What the package says about its model names (public functions over module-level lists)."""
+        return [(n, pgm.is_model(n), pgm.is_model_guess(n), pgm.is_model_iast(n)) for n in _names0]
+
     # ------------------------------------------------------------------ query catalogue: name -> f(objs) -> outcome
     def Q():
         qs = []
@@ -903,6 +956,11 @@ def _run_body(ck, env):
         add("model_iso(Langmuir)", lambda o: pgm.model_iso(o["iso"], model="Langmuir"), 0.4)
         add("model_iso(Toth, des)", lambda o: pgm.model_iso(o["iso"], model="Toth", branch="des"), 0.2)
         add("model_iso(guess)", lambda o: pgm.model_iso(o["iso"], model=["Henry", "Langmuir", "Toth"]), 0.2, heavy=True)
+        # ---- `model='guess'`: the candidate list is MODULE-LEVEL state shared by every call of the process, and several candidates FAIL inside the
+        #      query on ordinary data (strictly linear uptake: six of ten; pressures in Pa: one).  Through every entry point, on data sets of several shapes.
+        for gname, gf, gw in GUESS_QUERIES:
+            add(gname, gf, gw, heavy=True)
+        add("modelling name registry", lambda o: model_registry(), 0.3)
         for which in ("miso", "miso2"):
             add(f"{which}.loading_at", lambda o, w=which: o[w].loading_at(o[w].model.pressure_range[1] * 0.4), 0.3)
             add(f"{which}.pressure_at", lambda o, w=which: o[w].pressure_at(0.7), 0.3)
@@ -981,6 +1039,82 @@ def _run_body(ck, env):
                 "near-duplicate temperatures (near0..2: the same isotherm, same adsorbate object)": world.get("near_T"), "units": world["units"], "material": world["material"],
                 "pressure": world["pressure"], "loading": world["loading"], "branch": world["branch"], "model isotherms (Pa / bar)": [world["miso"], world["miso2"]]}
 
+    MODULE_SLOTS = g["MODULE_SLOTS"]
+    leads_done = set()
+
+    def _same(a, b):
+        try:
+            return bool(a == b)
+        except Exception:
+            return a is b
+
+    def module_dirty():
+        """Module-level / class-level containers of the package whose CONTENT differs from the content right after import — other than dictionaries that only
+        grew (memo caches: their invisibility is what the comparison with the fresh call tests).  Looked at BEFORE anything is put back."""
+        out = []
+        for sl in MODULE_SLOTS:
+            c, pr = sl["obj"], sl["pristine"]
+            if _same(c, pr):
+                continue
+            if isinstance(c, dict) and isinstance(pr, dict) and all(k in c and _same(c[k], pr[k]) for k in pr):
+                continue
+            out.append((sl, _ccopy(c)))
+        return out
+
+    def _put(c, content):
+        new = _ccopy(content)
+        if isinstance(c, (dict, set)):
+            c.clear()
+            c.update(new)
+        elif isinstance(c, list):
+            c[:] = new
+        else:
+            c.clear()
+            c.extend(new)
+
+    def follow_module_leads(world, seq):
+        """A history left a module-level container (a list / set of names, a table of units ...) with another content than a fresh interpreter has.  That is a LEAD,
+        not yet a violation: look for a query whose outcome on FRESH objects differs when the containers hold what the history left in them, and shrink the history."""
+        dirty = module_dirty()
+        if not dirty:
+            return
+        labels = tuple(sorted(sl["label"] for sl, _ in dirty))
+        note = ck.cov["module_state"].setdefault("containers_changed_by_a_history (other than dictionaries that only grew)", {})
+        for sl, content in dirty:
+            note.setdefault(sl["label"], {"after import": repr(sl["pristine"])[:300], "after the history": repr(content)[:300], "world": world["name"], "history (last calls)": [h[0] for h in seq[-6:]]})
+        if labels in leads_done:
+            return
+        leads_done.add(labels)
+        t0, found = _time.time(), 0
+        probes = [q for q in queries if q[0].startswith("guess fit") or q[0] == "modelling name registry"] + [q for q in queries if q[3] and not q[4]]
+        for name, f, *_ in probes:
+            if _time.time() - t0 > 30.0 or found >= 2:
+                break
+            key = (world["name"], name)
+            if key not in cache_fresh:
+                cache_fresh[key] = outcome(f, fresh(world))
+            ref_out = cache_fresh[key]
+            o2 = fresh(world, light=True)
+            for sl, content in dirty:
+                _put(sl["obj"], content)
+            out = outcome(f, o2)
+            ck.count((world["name"], labels, "lead", name), bucket="module-state-lead:probe")
+            if out == ref_out:
+                continue
+            found += 1
+
+            def reproduces(hist, f=f, ref_out=ref_out):
+                o3 = fresh(world, light=True)
+                for _hn, hf, *_ in hist:
+                    outcome(hf, o3)
+                return outcome(f, o3) != ref_out
+            short = shrink_history(list(seq), reproduces) if len(seq) > 1 else list(seq)
+            ck.fail_case({"query": name, "clause": "outcome depends on the query history", "last_query": short[-1][0] if short else None},
+                         {"world": world["name"], "history": [h[0] for h in short], "then": name, "after_history": str(out)[:300], "fresh": str(ref_out)[:300],
+                          "module-level containers the history changed": {sl["label"]: {"after import": repr(sl["pristine"])[:300], "after the history": repr(content)[:300]} for sl, content in dirty},
+                          "world_definition": describe(world)})
+        clean_state()
+
     def run_history(world, seq, tag, bucket_prefix="query:", ids="all"):
         """One history on fresh objects of `world`; the reference outcomes (same call FIRST on identical fresh objects) are computed
         beforehand so that nothing disturbs the objects under test while the history runs."""
@@ -1030,6 +1164,7 @@ def _run_body(ck, env):
         if reg:
             ck.fail_case({"query": "sequence", "clause": "registered adsorbate modified by read-only calls", "object": reg[0]["adsorbate"]},
                          {"world": world["name"], "history": list(history), "changed": reg[:3]})
+        follow_module_leads(world, list(seq))
         twin_observation(world, objs, history, full=bucket_prefix in ("sweep:", "query:", "option-kind-iast:"))      # (the CSV / AIF texts in the long histories only: 5 ms each)
 
     ISO_KEYS = ("iso", "ref", "cold", "ref_same", "miso", "miso2", "pair", "near0", "near1", "near2")
@@ -1630,6 +1765,15 @@ def _run_body(ck, env):
             ck.fail_case({"query": "pressure(relative)", "clause": "outcome depends on the query history", "last_query": "queries on an isotherm of the same adsorbate at 87.3 K"},
                          {"sample": world["name"], "first": str(r1)[:120], "again": str(r2)[:120]})
     lap("6 module caches and remaining pairs")
+    # ------------------------------------------------------------------ (6b) guess fits: every ordered pair of `model='guess'` calls on data of different shapes
+    # (candidates that fail inside one call — strictly linear uptake, pressures in Pa — and the module-level candidate list every later call of the process reads)
+    gq = [q for q in queries if q[0].startswith("guess fit")]
+    reg_q = [q for q in queries if q[0] == "modelling name registry"]
+    for world in (measured + synthetic if thorough else [rng.choice(measured + synthetic)]):
+        sel = gq if thorough else [gq[0]] + rng.sample(gq[1:], 2)
+        sel = sel + reg_q
+        run_history(world, [sel[i] for i in euler_circuit(len(sel), rng)], 13, bucket_prefix="guess-fits:", ids="iso")
+    lap("6b guess fits")
     # ------------------------------------------------------------------ (7) the Lean cache model on the recorded trace
     lines = [t[0] for t in trace]
     try:
